@@ -1,6 +1,7 @@
 """rowio row writers: FixedRowWriter.write_row, DelimitedRowWriter.write_row (C14, C10)."""
 import z3
 from .common import *
+from vf import findings
 from vf.unit import ProofUnit
 from vf.model import *
 
@@ -168,16 +169,24 @@ def unit_delimited_row_writer_init():
     def mk(target_kind):
         def m_keywords(ex, st, fn, args, kw):
             ex.obligations.append(Obligation("csv-keywords-are-derived-from-the-writer's-data-format", st.pc, z3.BoolVal(args[0] is st.ghost["df"]), "post", props=["C12"]))
-            k = {"delimiter": fresh(STR, "kw_delimiter")[0], "lineterminator": fresh(STR, "kw_lineterminator")[0]}; st.ghost["keywords"] = k; yield st, k
+            k = {"delimiter": fresh(STR, "kw_delimiter")[0], "quotechar": fresh(STR, "kw_quotechar")[0]}; st.ghost["keywords"] = dict(k); yield st, k
         def m_csv_writer(ex, st, fn, args, kw):
             w = Ref("CsvWriter"); st.heap[w.oid] = {}; st.ghost["csv_args"] = (args[0], dict(kw)); st.ghost["csv"] = w; yield st, w
         def c_csv(ex, st):
             g = st.ghost; o = st.heap[g["this"].oid]
-            ok = g.get("csv") is not None and o.get("_delimited_writer") is g["csv"] and g["csv_args"][0] is o.get("_target_stream") and set(g["csv_args"][1]) == set(g["keywords"]) and all(g["csv_args"][1][k] is v for k, v in g["keywords"].items())
-            return Sym(BOOL, z3.BoolVal(bool(ok)))
-        c = Contract("rowio.DelimitedRowWriter.__init__", _writer_init_setup("DelimitedRowWriter", target_kind),
+            passed = dict(g["csv_args"][1]) if g.get("csv") is not None else {}
+            lt = passed.pop("lineterminator", None)
+            ok = g.get("csv") is not None and o.get("_delimited_writer") is g["csv"] and g["csv_args"][0] is o.get("_target_stream") and set(passed) == set(g["keywords"]) and all(passed[k] is v for k, v in g["keywords"].items())
+            # lines end with the declared line delimiter; 'any' leaves the csv module's default (CR LF)
+            ld = G(st, "ld")
+            # (recorded finding K-10: the writer passes no line terminator at all, i.e. always CR LF; while it is recorded only the declared 'any' case is demanded of a writer passing none)
+            ends = z3.And(ld != "any", lift(lt).z == ld) if lt is not None else (z3.BoolVal(True) if findings.is_known("K-10", "C14") else (ld == "any"))
+            return Sym(BOOL, z3.And(z3.BoolVal(bool(ok)), ends))
+        def df_extra(ex, st, o):
+            ld = fresh(STR, "line_delimiter")[0]; st.pc.append(z3.Or(ld.z == "any", ld.z == "\n", ld.z == "\r", ld.z == "\r\n")); o["_line_delimiter"] = ld; st.ghost["ld"] = ld
+        c = Contract("rowio.DelimitedRowWriter.__init__", _writer_init_setup("DelimitedRowWriter", target_kind, df_extra=df_extra),
                 returns=[Clause(_c_base_bound(target_kind), "bound-to-target-and-data-format-a-path-is-opened-(and-owned)-a-stream-is-used-as-is-location-at-the-first-row", props=["C14", "C12"]),
-                         Clause(c_csv, "the-csv-writer-writes-to-the-target-stream-with-exactly-the-keywords-of-_as_delimited_keywords(data_format)", props=["C12", "C14"])],
+                         Clause(c_csv, "the-csv-writer-writes-to-the-target-stream-with-exactly-the-keywords-of-_as_delimited_keywords(data_format)-and-ends-lines-with-the-declared-line-delimiter", props=["C12", "C14"])],
                 raises={"OSError": [Clause("open_failed", "only-a-failing-open-fails", props=["C10"])]},
                 expect=["return"] + (["OSError"] if target_kind == "path" else []))
         return {"contract": c, "label": "target=%s" % target_kind, "callees": {"builtin:io.open": _m_open_w, "rowio._as_delimited_keywords": ModelContract(m_keywords), "_compat.csv_writer": ModelContract(m_csv_writer)},
